@@ -104,7 +104,7 @@ func jobs(tier string) []driver.Job {
 						// really meet: Concurrency 2, empty destination; the others as in the quick tier plus F2.D0
 						main := conc == 2 && len(prep) == 0
 						switch {
-						case main && len(d.Nodes) <= 6:
+						case main && len(d.Nodes) <= 5:
 							out = append(out, mkJob(s, explore.Bounds{Fault: 1, Dev: 2}, 8)...)
 							out = append(out, mkJob(s, explore.Bounds{Fault: 2, Dev: 1}, 8)...)
 						case main:
